@@ -415,8 +415,10 @@ func (e *Enc) specBinary(n *ast.BinaryExpr, env *SpecEnv) Val {
 		if x.Sh.K == KStr {
 			switch n.Op {
 			case token.LSS:
+				e.strOrderFacts(x.T, y.T)
 				return boolVal(fmt.Sprintf("(strlt %s %s)", x.T, y.T))
 			case token.GTR:
+				e.strOrderFacts(x.T, y.T)
 				return boolVal(fmt.Sprintf("(strlt %s %s)", y.T, x.T))
 			}
 		}
@@ -434,6 +436,9 @@ func (e *Enc) specBinary(n *ast.BinaryExpr, env *SpecEnv) Val {
 		return Val{Sh: x.Sh, T: fmt.Sprintf("(tdiv %s %s)", x.T, y.T)}
 	case token.REM:
 		return Val{Sh: x.Sh, T: fmt.Sprintf("(tmod %s %s)", x.T, y.T)}
+	case token.AND:
+		// the same uninterpreted bit operation the executor uses (both sides of an equation see one symbol)
+		return Val{Sh: x.Sh, T: fmt.Sprintf("(bitand%s %s %s)", bitsTag(x.Sh), x.T, y.T)}
 	}
 	specFail("unsupported binary operator %s", n.Op)
 	panic("unreachable")
@@ -518,6 +523,40 @@ func (e *Enc) specCall(n *ast.CallExpr, env *SpecEnv) Val {
 		}
 		ne.old, ne.oldVars = nil, nil
 		return e.evalSpec(n.Args[0], &ne)
+	case "callres":
+		// callres("f", k): k-th result of the single static call to f in this function's body
+		lit, ok := n.Args[0].(*ast.BasicLit)
+		if !ok || env.f == nil {
+			specFail("callres(\"f\", k) needs a function body")
+		}
+		cname, _ := strconv.Unquote(lit.Value)
+		var k int
+		if kl, ok := n.Args[1].(*ast.BasicLit); ok {
+			fmt.Sscanf(kl.Value, "%d", &k)
+		}
+		var found *ssa.Call
+		cnt := 0
+		for _, b := range env.f.fn.Blocks {
+			for _, ins := range b.Instrs {
+				if c, ok := ins.(*ssa.Call); ok {
+					if sc := c.Common().StaticCallee(); sc != nil && e.w.funcName(sc) == cname {
+						found = c
+						cnt++
+					}
+				}
+			}
+		}
+		if cnt != 1 {
+			specFail("callres(%q): %d static calls in the body (need exactly one)", cname, cnt)
+		}
+		v, ok := env.f.vals[found]
+		if !ok {
+			specFail("callres(%q): the call has not been executed on this path", cname)
+		}
+		if v.Sh.K == KTuple || (len(v.Sub) > k && found.Type() != nil && isTuple(found.Type())) {
+			return v.Sub[k]
+		}
+		return v
 	case "local":
 		// local(x): the function's local variable x at this point, even when a parameter has the same name
 		id, ok := n.Args[0].(*ast.Ident)
@@ -1235,3 +1274,5 @@ func (e *Enc) instOne(qf *quantFact, t string) {
 	e.assume(inst)
 	e.curReach = saveR
 }
+
+func isTuple(t types.Type) bool { _, ok := t.(*types.Tuple); return ok }
